@@ -13,16 +13,22 @@ import (
 func init() {
 	Register("ledger", runLedger)
 	rule := "histories of the `ledger` workload profile (seeded PRNG; see DESIGN §5): deposits, withdrawals, delegations, undelegations (single, multi-operator, round trips), associate/dissociate, operator register/opt-in/opt-out/key changes, keeper-step slashes, NST balance updates, downtime and double-sign evidence, block/epoch advancement, hostile amounts. "
-	RegisterPlan(Plan{Prop: "C01", Engine: "ledger", Quick: 48, Thorough: 1600, Level: "exploration", MinCases: 12,
+	RegisterPlan(Plan{Prop: "C01", Engine: "ledger", Quick: 240, Thorough: 6000, Level: "exploration", MinCases: 12,
 		Rule: rule + "Non-trivial: a step that changed S(a) for some asset; distinct = ⟨op kind, asset kind, ack, sign(ΔS)⟩ plus escrow coverage."})
-	RegisterPlan(Plan{Prop: "C02", Engine: "ledger", Quick: 48, Thorough: 1600, Level: "exploration", MinCases: 10,
+	RegisterPlan(Plan{Prop: "C02", Engine: "ledger", Quick: 240, Thorough: 6000, Level: "exploration", MinCases: 10,
 		Rule: rule + "Distinct = ⟨invariant family, pool-state class (1:1 / skewed buckets / empty), #holders bucket, association⟩, bystander-fairness cases by ⟨op, pool class⟩, observed round trips by pool class, and pure-function triples by pool class (20 000 per run)."})
-	RegisterPlan(Plan{Prop: "C03", Engine: "ledger", Variant: "exit", Quick: 48, Thorough: 1600, Level: "exploration", MinCases: 10,
+	RegisterPlan(Plan{Prop: "C03", Engine: "ledger", Variant: "exit", Quick: 240, Thorough: 6000, Level: "exploration", MinCases: 10,
 		Rule: rule + "Distinct = ⟨operator lifecycle state at undelegation, hold pattern, asset kind, record origin⟩ for which a release was observed, accepted-undelegation classes by operator state, same-block release multiplicities, numbers of concurrent records."})
-	RegisterPlan(Plan{Prop: "C04", Engine: "ledger", Variant: "slash", Quick: 48, Thorough: 1600, Level: "exploration", MinCases: 8,
+	RegisterPlan(Plan{Prop: "C04", Engine: "ledger", Variant: "slash", Quick: 240, Thorough: 6000, Level: "exploration", MinCases: 8,
 		Rule: rule + "Slash drivers: keeper-step OperatorKeeper.Slash with generated power/proportion/infraction height/slash id (fresh, replayed, invalid), and the real BeginBlock path (double-sign evidence, downtime). Distinct = ⟨driver, p class (0,(0,1),1), #pools, #at-risk records, #not-at-risk records, pool slashed to zero⟩ for executed slashes, plus rejected-input and replay classes."})
-	RegisterPlan(Plan{Prop: "C07", Engine: "ledger", Variant: "keys", Quick: 48, Thorough: 1600, Level: "exploration", MinCases: 8,
+	RegisterPlan(Plan{Prop: "C07", Engine: "ledger", Variant: "keys", Quick: 240, Thorough: 6000, Level: "exploration", MinCases: 8,
 		Rule: rule + "Profile `keys` weights opt-in with key, key replacement (fresh key, own earlier key, another operator's key), opt-out and evidence higher. Distinct = ⟨op kind, key status (fresh / own-current / own-previous / others), removing?, ack⟩, registry shapes ⟨#operators with keys, previous keys present, removals present⟩, and observed prunings by cause (replaced / removal)."})
+	RegisterPlan(Plan{Prop: "C05", Engine: "ledger", Variant: "power", Quick: 240, Thorough: 6000, Level: "exploration", MinCases: 8,
+		Rule: rule + "Profile `power` additionally registers 1-2 AVSs through the AVS precompile (random asset subsets, minimum self-delegation 0/1/50/1000, epoch identifier minute or hour), lets operators opt in/out of them, and moves prices and price decimals by appending oracle rounds. Judged right after every BeginBlock that closed an epoch of the AVS's identifier. Distinct = ⟨epoch identifier, #assets of the AVS held by the operator, price classes, eligible?, zero value?⟩."})
+	RegisterPlan(Plan{Prop: "C06", Engine: "ledger", Variant: "keys", Quick: 240, Thorough: 6000, Level: "exploration", MinCases: 8,
+		Rule: rule + "Every EndBlock is judged: non-epoch blocks must return no updates; epoch-closing blocks are compared with a reference top-set computed from the pre-EndBlock snapshot. The consensus side applies every update list with CometBFT's own ValidatorSet.UpdateWithChangeSet. Distinct = ⟨|prev|, |new|, #added, #removed, #repowered, tie?, capped by MaxValidators?, sub-unit powers present?⟩."})
+	RegisterPlan(Plan{Prop: "C16", Engine: "ledger", Variant: "queues", Quick: 240, Thorough: 6000, Level: "exploration", MinCases: 8,
+		Rule: rule + "Profile `queues` weights undelegations, opt-outs and key replacements higher and lets governance change EpochsUntilUnbonded (1..4) mid-run; block-time gaps of 61 s / 130 s give one-tick-per-block catch-up. A shadow model records the epoch each queue entry was registered for; every BeginBlock/EndBlock is judged for timing, completeness and exactly-once. Distinct = ⟨registration kind, cause (validator / opting-out), N⟩, drain shapes ⟨#opt-outs, #prunings, #undelegations⟩ and hold-decision classes."})
 }
 
 func runLedger(j Job) *Result {
@@ -32,6 +38,9 @@ func runLedger(j Job) *Result {
 	c03 := mon.NewStats("C03")
 	c04 := mon.NewStats("C04")
 	c07 := mon.NewStats("C07")
+	c05 := mon.NewStats("C05")
+	c06 := mon.NewStats("C06")
+	c16 := mon.NewStats("C16")
 	for i := j.From; i < j.To; i++ {
 		hist := fmt.Sprintf("ledger:%s:%d:%d", j.Variant, j.Seed, i)
 		o := ops.DefaultLedgerOpts()
@@ -41,6 +50,12 @@ func runLedger(j Job) *Result {
 		o.NStakers = 3 + r.Intn(6)
 		o.Steps = 100 + r.Intn(80)
 		o.Unbond = uint32(1 + r.Intn(3))
+		if r.Intn(3) == 0 {
+			o.MaxVals = uint32(1 + r.Intn(3))
+		}
+		if r.Intn(4) == 0 {
+			o.MinSelf = int64(1 + r.Intn(200))
+		}
 		if j.Tier == "thorough" {
 			o.Steps = 150 + r.Intn(150)
 		}
@@ -52,9 +67,9 @@ func runLedger(j Job) *Result {
 			continue
 		}
 		m1, m2, m3, m4 := mon.NewC01(hist), mon.NewC02(hist), mon.NewC03(hist), mon.NewC04(hist)
-		m7 := mon.NewC07(hist)
+		m7, m5, m6, m16 := mon.NewC07(hist), mon.NewC05(hist), mon.NewC06(hist), mon.NewC16(hist)
 		m3.OperState = ops.OperState
-		w.Monitors = []ops.Monitor{m1, m2, m3, m4, m7}
+		w.Monitors = []ops.Monitor{m1, m2, m3, m4, m7, m5, m6, m16}
 		w.RunLedger(o)
 		res.Histories++
 		res.Steps += int64(len(w.Steps))
@@ -91,6 +106,9 @@ func runLedger(j Job) *Result {
 			c01.Sample(map[string]interface{}{"history": hist, "first_steps": w.Steps[:12]})
 			c02.Sample(map[string]interface{}{"history": hist, "first_steps": w.Steps[4:14]})
 			c03.Sample(map[string]interface{}{"history": hist, "first_steps": w.Steps[:12]})
+			c05.Sample(map[string]interface{}{"history": hist, "first_steps": w.Steps[:10]})
+			c06.Sample(map[string]interface{}{"history": hist, "first_steps": w.Steps[:10]})
+			c16.Sample(map[string]interface{}{"history": hist, "first_steps": w.Steps[:10]})
 			for _, st := range w.Steps {
 				if (st.Kind == "setkey" || st.Kind == "optout" || st.Kind == "optin") && len(c07.Samples) < 5 {
 					c07.Sample(map[string]interface{}{"history": hist, "step": st})
@@ -107,6 +125,12 @@ func runLedger(j Job) *Result {
 		c03.Merge(m3.S)
 		c04.Merge(m4.S)
 		c07.Merge(m7.S)
+		c05.Merge(m5.S)
+		c06.Merge(m6.S)
+		c16.Merge(m16.S)
+		if w.ConsensusHalt != "" {
+			c06.Violate("cometbft-rejects-update-list", "", hist, len(w.Steps), "CometBFT validator-set validation refused the update list: %s", w.ConsensusHalt)
+		}
 	}
 	if j.From == 0 {
 		mon.PureShareFunctions(c02, rand.New(rand.NewSource(j.Seed)), 20000)
@@ -116,5 +140,8 @@ func runLedger(j Job) *Result {
 	res.AddStats(c03)
 	res.AddStats(c04)
 	res.AddStats(c07)
+	res.AddStats(c05)
+	res.AddStats(c06)
+	res.AddStats(c16)
 	return res
 }
